@@ -5,6 +5,15 @@ CHECKS = {
  "C01": dict(cat="exploration", technique="deterministic simulation: seeded schedule + fault search over the real Mutex on a simulated futex/atomics seam, vector-clock race oracle",
    text="Seeded search over interleavings (2-4 simulated threads, every seam atomic op / futex call / protected-data access a scheduling point; random, sticky, PCT and starvation schedulers; wake-target choice; spurious futex returns and EINTR) of the real Mutex code. Oracles: guard counter, happens-before race detector plus sequential model of the protected data, deadlock/fair-progress detector, try_lock never parks and never fails without a holder. Evidence is sampling, not proof.",
    note="Sequentially consistent interleavings only; futex semantics are the simulator's model; weakened orderings are detected as missing happens-before edges on protected data.", ref="DESIGN.md §3 C01"),
+ "C02": dict(cat="exploration", technique="deterministic simulation: seeded schedule + fault search over the real RwLock on a simulated futex/atomics seam, vector-clock race oracle",
+   text="Seeded search over interleavings of 2-4 simulated threads running generated read/write/try_read/try_write programs against the real RwLock; every seam atomic op, futex call and protected-data access is a scheduling point; wake hand-off targets, spurious futex returns, EINTR and spurious weak-CAS failures are decisions. Oracles: reader/writer guard counters, happens-before race detector plus sequential model, deadlock/fair-progress detector, try_* never park. Sampling, not proof.",
+   note="Sequentially consistent interleavings only; futex semantics are the simulator's model; a try_* returning None is never judged.", ref="DESIGN.md §3 C02"),
+ "C09": dict(cat="fault_enumeration", technique="deterministic simulation: forced-return kernel at the sc seam, complete enumeration of return-register values per wrapper",
+   text="Every exported rusl wrapper is called on a simulated kernel that never enters the real one: the return register is scripted with every errno 1..=4095 and every success-value class (0..=200 incl. 16, boundaries -4096/-4097, large unsigned), dup2/dup3 additionally with EBUSY-prefix scripts; oracle: Err iff value in [-4095,-1] with the positive errno, else Ok with the value unchanged, exactly one kernel entry. Exhaustive over the stated finite space.",
+   note="exit, execve success, infallible getters and composites are excluded (listed in evidence); forced successes rely on out-parameter fixtures.", ref="DESIGN.md §3 C09"),
+ "C15": dict(cat="exploration", technique="deterministic simulation: scripted reader/writer (short transfers, EINTR, EOF, terminal errors) behind the io::Read/io::Write seam, reference-model oracle",
+   text="Seeded scripts drive read_to_end/read_to_string/read_exact/write_all/write_fmt through a reader/writer whose every call is answered by the decision stream (k bytes, EOF/0, EINTR, terminal errno), with sizes and capacities around the 32-byte thresholds and UTF-8 cut at every boundary; results are compared with a trivial reference (concatenation). Sampling, not proof.",
+   note="After an error the buffer must be old ++ prefix(delivered); uninitialised-memory exposure is not observable in a normal run.", ref="DESIGN.md §3 C15"),
 }
 NA = {
  "C07": "pure function of the initial process image (argv/env/aux on the start-up stack): no schedule, clock, fault or second party to simulate",
